@@ -882,6 +882,10 @@ func (w *World) do(op *Op, res *Result) {
 		t.Option(op.Text)
 	case opCSP:
 		t.CSPCompatible()
+	case opFuncs:
+		// registers one more template function, named op.Name, on this set
+		name := op.Name
+		t.Funcs(template.FuncMap{name: func() string { return "<" + name + ">" }})
 	case opDelims:
 		lr := strings.SplitN(op.Text, " ", 2)
 		if len(lr) == 2 {
